@@ -563,15 +563,15 @@ def check_nearmiss(case):
 
 
 core.register("C01", [
-    Facet("history", programs, check_program, n_quick=1600, shards_quick=8,
+    Facet("history", programs, check_program, n_quick=3200, shards_quick=8,
           rule=RULE),
-    Facet("nearmiss", nearmiss_cases, check_nearmiss, n_quick=800,
+    Facet("nearmiss", nearmiss_cases, check_nearmiss, n_quick=1600,
           shards_quick=4, rule="a generated diagram composed (>>, "
           "constructor, +) with a value whose type differs from the expected "
           "one in exactly one leaf (name, winding number, dimension, bit/"
           "qubit, slash direction, nested side of a slash type): must be "
           "refused"),
-    Facet("illtyped", illtyped_cases, check_illtyped, n_quick=800,
+    Facet("illtyped", illtyped_cases, check_illtyped, n_quick=1600,
           shards_quick=2, rule="one well-typed generated diagram and one "
           "corrupted constructor request derived from it; non-trivial = the "
           "request is ill-typed by key comparison"),
